@@ -5,7 +5,7 @@ import warnings
 
 from hypothesis import strategies as st
 
-from .. import convs, history as H, pdugen as g, refcmd, ulmodel
+from .. import convs, history as H, pdugen as g, refcmd, refpdu, ulmodel
 from ..common import Violation, HarnessError, hyp_search, parallel
 
 LEVEL = 'exploration'
@@ -63,9 +63,24 @@ def peer_progress(model):
     return 1 if r.cmd else 0
 
 
+def heads(model):
+    """The peer pauses inside a PDU (first bytes only: inside the 6-byte header, inside the body, inside a PDV header)."""
+    out = [{'a': 'head', 'spec': convs.REL_RQ, 'cut': 3}, {'a': 'head', 'spec': convs.ABORT_SU, 'cut': 8}]
+    if model.state == 2:
+        out.append({'a': 'head', 'spec': convs.RQ_SPEC, 'cut': 40})
+    if model.state == 5:
+        out.append({'a': 'head', 'spec': convs.AC_SPEC, 'cut': 5})
+    if model.state in (6, 7) and peer_progress(model) == 0:
+        out.append({'a': 'head', 'spec': ECHO1, 'cut': 9})
+    return out
+
+
 def net_alphabet(model):
     if not model.transport:
         return []
+    if getattr(model, 'half', None) is not None:
+        # the byte stream is inside a PDU: all the peer can do is to go on with it, or to close
+        return [{'a': 'tail'}, {'a': 'close'}]
     out = [{'a': 'pdu', 'spec': convs.RQ_SPEC}, {'a': 'pdu', 'spec': convs.AC_SPEC},
            {'a': 'pdu', 'spec': convs.RJ_SPEC}, {'a': 'pdu', 'spec': convs.REL_RQ},
            {'a': 'pdu', 'spec': convs.REL_RP}, {'a': 'pdu', 'spec': convs.ABORT_SU},
@@ -174,6 +189,8 @@ def brief_action(a):
         if t == 4:
             extra = ':' + ','.join('%d' % v['data'][0] for v in a['spec']['pdvs'])
         return 'pdu%d%s%s' % (t, extra, '!' if a.get('eager') else '')
+    if a['a'] == 'head':
+        return 'head(pdu%d,%d bytes)%s' % (a['spec']['t'], a['cut'], '!' if a.get('eager') else '')
     if a['a'] == 'user':
         return 'user:pdu%d' % a['pdu']['t'] if 'pdu' in a else 'user:msg(%d)' % len(a['msg'])
     if a['a'] == 'tick':
@@ -212,7 +229,7 @@ def walk(draw, max_len=30):
         # bias towards staying associated: prefer user actions and data while establishing
         bias = draw(st.integers(0, 9))
         establish = None
-        if bias < 8:
+        if bias < 8 and getattr(m, 'half', None) is None:
             if m.state == 2:
                 establish = {'a': 'pdu', 'spec': convs.RQ_SPEC}
             elif m.state == 3:
@@ -245,6 +262,10 @@ def walk(draw, max_len=30):
                     act['spec'] = draw(g.abort_pdu)
             # (two complete messages inside ONE P-DATA-TF are not generated: whether PS3.8 Annex E allows
             #  that is unclear and the library delivers only the first - recorded as an observation)
+            if act['a'] == 'pdu' and draw(st.integers(0, 5)) == 0:
+                # the peer pauses somewhere inside this PDU; the rest comes later (or never)
+                size = len(refpdu.enc_pdu(act['spec']))
+                act = {'a': 'head', 'spec': act['spec'], 'cut': draw(st.integers(1, size - 1))}
             if draw(st.integers(0, 2)) == 0:
                 act['eager'] = True
         else:
@@ -344,10 +365,11 @@ def run(ctx):
                 'continuing / last P-DATA fragments of messages received into a file (runs with own maximum 48 or 0) or in memory, unknown PDU type, peer close, each arriving after quiescence '
                 'or back-to-back, 2 s, 6 s and 11.5 s time advances, every user primitive legal in the model state incl. '
                 '1- and 3-fragment P-DATA requests}, plus Hypothesis random walks up to 30 steps with generated PDU '
-                'contents; every step compared with the executable PS3.8 model; non-trivial = the history reaches '
+                'contents; the peer pausing inside a PDU (first bytes only, rest later or never) with every '
+                'primitive / time advance / close meanwhile, from every prefix; every step compared with the executable PS3.8 model; non-trivial = the history reaches '
                 'Sta6 or exercises an abnormal action (AA-*, AR-8); distinct by (role, history)' % depth)
     ctx.assumptions = ['reference machine transcribed from PS3.8 Table 9-10 (vf/ulmodel.py)',
-                       'whole PDUs per segment (segmentation is C03); time moves only by explicit advances, kept '
+                       'whole PDUs per segment except for the explicit pause inside one PDU (general segmentation is C03); time moves only by explicit advances, kept '
                        '>=1 s away from the ARTIM deadline',
                        'order between a write and an indication inside one step is not compared',
                        'a multi-fragment P-DATA request overtaken by a back-to-back peer PDU is modelled as: first '
@@ -365,8 +387,22 @@ def run(ctx):
                         own = 65536
                     jobs.append({'role': role, 'depth': depth - 1, 'prefix': prefix + [v], 'eager': True,
                                  'max_pdu': own})
+    # the peer pauses inside a PDU, anything may happen meanwhile (user primitives, time, close), then the rest
+    stalls = 0
+    for role in ('requestor', 'acceptor'):
+        for name, prefix in sorted(prefixes(role).items()):
+            pred, model = H.predict(role, prefix)
+            if not model.transport:
+                continue
+            for h in heads(model):
+                own = 65536 if stalls % 2 == 0 else 48
+                if not eager_ok(prefix, own):
+                    own = 65536
+                jobs.append({'role': role, 'depth': depth, 'prefix': prefix + [h], 'eager': False, 'max_pdu': own})
+                stalls += 1
     parallel(ctx, run_dfs, jobs)
     ctx.label('dfs-jobs', len(jobs))
+    ctx.label('stall-jobs', stalls)
     if ctx.thorough:
         parallel(ctx, shard_walks, [{'n': 10000} for _ in range(16)])
     else:
